@@ -27,13 +27,20 @@ def norm_path(p):
     return p
 
 
+# private functions / trait methods that rule tables name, recognised by role when they were renamed (filled by core.Cx from the
+# facts of the tree under analysis): actual normalised name -> the name the tables use
+NAME_ALIASES = {}
+
+
 def callee_name(c):
     """normalised name of a callee descriptor"""
     if c is None:
         return '?'
     if c.get('tr'):
-        return c['tr'] + '::' + (c.get('n') or '?')
-    return norm_path(c['p'])
+        n = c['tr'] + '::' + (c.get('n') or '?')
+    else:
+        n = norm_path(c['p'])
+    return NAME_ALIASES.get(n, n)
 
 
 TRANSPARENT = {
